@@ -453,7 +453,7 @@ pub fn mon_state(f: &Flow, setup: &Setup, which: Proj, m: &mut Mon) {
                         format!("at seq {} ({}): consecutive failed checks shown {}, expected {}", seq, place, p.failed, model.failed)
                     });
                 }
-                if let Some(s) = sched {
+                if let (Some(s), false) = (sched, f.last_contact_store_faulty) {
                     let shown = s.last_update_time.and_then(|p| p.wall()).map(trunc_us);
                     m.judge(&format!("{}-last-contact-{}", pfx, place), shown == model.last_contact_us, "", || {
                         format!("at seq {} ({}): last contact shown {:?} us, expected {:?} us", seq, place, shown, model.last_contact_us)
@@ -539,7 +539,8 @@ pub fn mon_state(f: &Flow, setup: &Setup, which: Proj, m: &mut Mon) {
                 }
             }
             Proj::Book => {
-                m.judge("c08-committed-at-quiescence", failed == model.failed && lc == model.last_contact_us, if failed != model.failed { "counter" } else { "last-contact" }, || {
+                let lc_ok = f.last_contact_store_faulty || lc == model.last_contact_us;
+                m.judge("c08-committed-at-quiescence", failed == model.failed && lc_ok, if failed != model.failed { "counter" } else { "last-contact" }, || {
                     format!("committed (counter {}, last contact {:?}) expected ({}, {:?}) at quiescent point {}", failed, lc, model.failed, model.last_contact_us, q)
                 });
             }
@@ -1145,6 +1146,17 @@ pub fn mon_c11(log: &[Rec], f: &Flow, drained: bool, m: &mut Mon) {
             m.judge("c11-on-demand-upgrade-is-kept", later_all_od, "", || {
                 format!("reboot wait starting at seq {}: reboot_allowed questions (seq, on_demand, answer) {:?} fall back to ScheduledTask after the upgrade", wv.start_seq, wv.allowed)
             });
+        }
+        // a check that began on demand, or that itself answered an on-demand request (AlreadyRunning, resolved after
+        // the check began and before its reboot wait), asks its first reboot question on demand — whatever other
+        // requests it answered in between
+        let upgraded_in_check = reqs.iter().any(|q| q.on_demand && matches!(&q.reply, Some((r, lo, hi)) if r == "AlreadyRunning" && *lo > begin && *hi < wv.start_seq));
+        if started_od || upgraded_in_check {
+            if let Some(first) = wv.allowed.first() {
+                m.judge("c11-on-demand-check-asks-reboot-on-demand", first.1, if started_od { "started-on-demand" } else { "upgraded-in-check" }, || {
+                    format!("check #{} ran on demand (started on demand: {}, upgraded by a request it answered: {}) but its first reboot question at seq {} was asked as ScheduledTask", check.idx, started_od, upgraded_in_check, first.0)
+                });
+            }
         }
         // an on-demand request answered during the reboot wait is followed by an on-demand reboot question
         for q in reqs.iter().filter(|q| q.on_demand && q.send_seq > wv.start_seq) {
